@@ -19,6 +19,8 @@ mod context;
 mod copy;
 mod listeners;
 mod rules;
+#[cfg(redproxy_verif)]
+mod vtrace;
 
 #[cfg(feature = "metrics")]
 mod metrics;
